@@ -22,7 +22,7 @@ def gen_table(r, big):
             fields.insert(pos, ("u32", 0))
             cands = [pos]
         key = r.choice(cands)
-    nrec = r.choice([0, 1, 2, 7, 40, 300 if big else 90])
+    nrec = r.choice([0, 1, 2, 7, 33, 41, 300 if big else 90, 331 if big else 97])
     pool = [b"", b"a", b"Azeroth", b"Stormwind City", "Küste".encode(), "世界".encode(), b"x" * 70, b"dup", b"dup", b"tail\\path\\file.blp"] + \
            [bytes(r.randrange(1, 256) for _ in range(r.randrange(1, 12))) for _ in range(4)]
     pool = [p for p in pool if _utf8(p)]
